@@ -91,15 +91,23 @@ func valueKind(v types.XValue) string {
 	return fmt.Sprintf("%T", v)
 }
 
+var describeEnv = envs.NewBuilder().Build()
+
 func describeValue(o *Out, v types.XValue, full bool) {
 	o.RK = valueKind(v)
 	if n, ok := v.(*types.XNumber); ok && n != nil {
 		o.NC = n.Native().Coefficient().String()
 		o.NE = n.Native().Exponent()
 	}
-	// rendering is part of evaluating a template (Evaluator.Template renders every value), so its cost and
-	// its panics count
-	r := types.Render(v)
+	// converting to text is part of evaluating a template (Evaluator.Template converts every value), so its cost
+	// and its panics count. The conversion is the one the engine uses: ToXText, which refuses values too large to
+	// write (a value can hold the same sub-value many times over), and gives the error's message for an error.
+	r := ""
+	if xt, xerr := types.ToXText(describeEnv, v); xerr != nil {
+		r = xerr.Error()
+	} else {
+		r = xt.Native()
+	}
 	o.RL = len(r)
 	if !full && len(r) > 300 {
 		r = r[:300]
